@@ -156,3 +156,85 @@ Print Assumptions C06_count_between_pipeline.
 Print Assumptions C06_count_hyps_fresh.
 Print Assumptions C06_count_hyps_rerun.
 Print Assumptions C06_count_nonvacuous.
+
+(* ---- the counting sentence for a WHOLE distilled network (Pwl/ElimCountNet.v).  A distilled network is a pipeline ops
+   (apply_func / un-pruned composition with a total tree / infeasible_elimination, each elimination with its own
+   oracle, exact on the path polytopes of the tree at hand: exact_hist) run from a legal start t0 (pinv; e.g. a fresh
+   total tree, C06_fresh_total_is_legal).  Its activation regions are the terminal regions of the UN-PRUNED reference
+   tree U = the same pipeline with every elimination dropped (strip ops).  R = result of ops.
+     C06_network_mask:        the terminals of R are those of U selected by a mask m (never reordered, duplicated or
+                              altered: pruning along the way only ever removes activation regions), and every
+                              non-empty activation region is selected -- for every tol >= 0;
+     C06_network_lower_bound: hence #full-dimensional activation regions <= #terminals of R (any classification `full`
+                              that only marks non-empty regions; C06_interior_is_nonempty);
+     C06_network_exact_tol0:  if the pipeline ENDS with an elimination and tol = 0, a selected region is non-empty:
+                              #terminals of R = #non-empty closed activation regions of the network;
+     C06_network_upper_tol:   tol > 0: a kept terminal is only known to be non-empty within tol with respect to the rows
+                              that are still on its path in R (the rows of forwarded decisions are gone; ne_tol is a
+                              property of the row system, not of the point set): every terminal region OF R is ne_tol;
+     C06_network_completes:   the pruned pipeline completes (no Panic) whenever the reference pipeline does. ---- *)
+From AT Require Import ElimCountNet ElimCountNetEx.
+Theorem C06_network_mask : forall tol ops t0 R Un, 0 <= tol ->
+  (forall ox, In ox ops -> eff_op (snd ox)) -> exact_hist tol t0 ops -> pinv tol t0 ->
+  run tol t0 ops = HOk R -> run tol t0 (strip ops) = HOk Un ->
+  exists m : list bool,
+    length m = length (leaf_regions [] Un) /\
+    leaf_funcs R = select m (leaf_funcs Un) /\
+    Forall2 (fun (b : bool) (Rg : rows) => ne Rg -> b = true) m (leaf_regions [] Un).
+Proof. exact net_mask. Qed.
+Theorem C06_network_lower_bound : forall tol ops t0 R Un (full : list bool), 0 <= tol ->
+  (forall ox, In ox ops -> eff_op (snd ox)) -> exact_hist tol t0 ops -> pinv tol t0 ->
+  run tol t0 ops = HOk R -> run tol t0 (strip ops) = HOk Un ->
+  Forall2 (fun (b : bool) (Rg : rows) => b = true -> ne Rg) full (leaf_regions [] Un) ->
+  (count full <= nleaves R)%nat.
+Proof. exact net_lower_bound. Qed.
+Theorem C06_network_lower_bound_interior : forall tol ops t0 R Un (full : list bool), 0 <= tol ->
+  (forall ox, In ox ops -> eff_op (snd ox)) -> exact_hist tol t0 ops -> pinv tol t0 ->
+  run tol t0 ops = HOk R -> run tol t0 (strip ops) = HOk Un ->
+  Forall2 (fun (b : bool) (Rg : rows) => b = true -> interior Rg) full (leaf_regions [] Un) ->
+  (count full <= nleaves R)%nat.
+Proof. exact net_lower_bound_interior. Qed.
+(* the pipeline ops followed by a last elimination with oracle o *)
+Theorem C06_network_exact_tol0 : forall ops t0 R Un o (closed : list bool),
+  (forall ox, In ox ops -> eff_op (snd ox)) -> exact_hist 0 t0 (ops ++ [(o, OElim)]) -> pinv 0 t0 ->
+  run 0 t0 (ops ++ [(o, OElim)]) = HOk R -> run 0 t0 (strip (ops ++ [(o, OElim)])) = HOk Un ->
+  Forall2 (fun (b : bool) (Rg : rows) => b = true <-> ne Rg) closed (leaf_regions [] Un) ->
+  nleaves R = count closed.
+Proof. exact net_exact_tol0_last. Qed.
+(* the same in the form of C06_pipeline_effective: T = result of the pipeline so far, o exact on T *)
+Theorem C06_network_exact_tol0_then : forall ops t0 T Un o (closed : list bool),
+  (forall ox, In ox ops -> eff_op (snd ox)) -> exact_hist 0 t0 ops -> pinv 0 t0 ->
+  run 0 t0 ops = HOk T -> run 0 t0 (strip ops) = HOk Un ->
+  (forall r, is_path [] T r -> oexact_at o r) -> mir_sound o 0 ->
+  Forall2 (fun (b : bool) (Rg : rows) => b = true <-> ne Rg) closed (leaf_regions [] Un) ->
+  nleaves (fst (elim o 0 T)) = count closed.
+Proof. exact net_exact_tol0. Qed.
+Theorem C06_network_upper_tol : forall tol ops t0 T o, 0 <= tol ->
+  (forall ox, In ox ops -> eff_op (snd ox)) -> exact_hist tol t0 ops -> pinv tol t0 ->
+  run tol t0 ops = HOk T ->
+  (forall r, is_path [] T r -> oexact_at o r) -> mir_sound o tol ->
+  Forall (ne_tol tol) (leaf_regions [] (fst (elim o tol T))).
+Proof. exact net_upper_tol. Qed.
+Theorem C06_network_completes : forall tol ops t0 Un, 0 <= tol ->
+  (forall ox, In ox ops -> eff_op (snd ox)) -> exact_hist tol t0 ops -> pinv tol t0 ->
+  run tol t0 (strip ops) = HOk Un -> exists R, run tol t0 ops = HOk R.
+Proof. exact net_completes. Qed.
+(* eliminate / apply_func / compose / eliminate on one variable: 4 activation regions ({0}, x>=0, x<=0, empty), the
+   distilled tree has 3 terminals = the non-empty closed ones, 2 of them full-dimensional *)
+Example C06_network_nonvacuous :
+  exists R Un : ctree,
+    ((forall ox, In ox nx_ops -> eff_op (snd ox)) /\ exact_hist 0 nx_t nx_ops /\ pinv 0 nx_t /\
+     run 0 nx_t nx_ops = HOk R /\ run 0 nx_t (strip nx_ops) = HOk Un) /\
+    length (leaf_regions [] Un) = 4%nat /\ nleaves R = 3%nat /\ count nx_closed = 3%nat /\ count nx_full = 2%nat /\
+    leaf_funcs R = select nx_closed (leaf_funcs Un) /\
+    Forall2 (fun (b : bool) (Rg : rows) => b = true <-> ne Rg) nx_closed (leaf_regions [] Un) /\
+    Forall2 (fun (b : bool) (Rg : rows) => b = true -> interior Rg) nx_full (leaf_regions [] Un).
+Proof. exact nx_net. Qed.
+Print Assumptions C06_network_mask.
+Print Assumptions C06_network_lower_bound.
+Print Assumptions C06_network_lower_bound_interior.
+Print Assumptions C06_network_exact_tol0.
+Print Assumptions C06_network_exact_tol0_then.
+Print Assumptions C06_network_upper_tol.
+Print Assumptions C06_network_completes.
+Print Assumptions C06_network_nonvacuous.
